@@ -57,6 +57,9 @@ def plan(tier: str, seed: int) -> list[dict]:
         cases.append({"k": "hdd", "i": 9000 + j, "big": True, "weight": 12})
     for i in range(16 if tier == "quick" else 300):
         cases.append({"k": "vmdk-delta-multi", "i": i})
+    for i in range(12 if tier == "quick" else 300):
+        # several storages, each a chain of snapshot images; the same HDD object opened again and again
+        cases.append({"k": "hdd-chain", "i": i})
     for i in range(4 if tier == "quick" else 40):
         # descriptor files far larger than the usual few hundred bytes (a thousand and more extents, or long annotations)
         cases.append({"k": "vmdk", "i": 50000 + i, "long": ["many", "notes"][i % 2], "weight": 6})
@@ -105,6 +108,36 @@ def run(case: dict, ctx) -> dict:
     rng = rng_for(ctx.seed, ID, case["k"], case["i"])
     quick = ctx.tier == "quick"
     d = Path(ctx.tmpdir())
+    if case["k"] == "hdd-chain":
+        from vf import chains
+
+        o = call(chains.hdd_snapshots, rng, ctx, depth=rng.choice([2, 3]), top_mode=rng.choice(["default", "explicit"]), nstorages=rng.choice([2, 3]),
+                 base_plain=rng.random() < 0.5)
+        if not o.ok:
+            res["viol"].append({"what": f"open failed on a well-formed .hdd: {o.brief()}", "mech": MECH, "detail": {"tb": o.tb}})
+            return res
+        op = o.value
+        streams_ = [op.stream]
+        for n_open in range(2, 5):
+            o2 = call(op.hdd.open)
+            if not o2.ok:
+                res["viol"].append({"what": f"open #{n_open} of the same HDD object failed: {o2.brief()}", "mech": MECH, "detail": {"tb": o2.tb}})
+                return res
+            streams_.append(o2.value)
+        reqs, _ = gen_requests(rng, op.model.size, [8192], n_random=20)
+        reqs.append((0, op.model.size))
+        for n_open, st_ in enumerate(streams_, 1):
+            before = len(res["viol"])
+            compare_reads(st_, op.model, reqs, res, MECH)
+            if len(res["viol"]) > before:
+                res["viol"][-1]["detail"]["open_number_on_the_same_object"] = n_open
+                break
+        cnt["hdd_chain_cases"] = 1
+        cnt["streams_opened_from_one_hdd_object"] = len(streams_)
+        res["nontrivial"] = True
+        res["sig"] = ("hdd-chain", case["i"], op.model.size)
+        res["sample"] = {"hdd_chain": op.info, "size": op.model.size}
+        return res
     if case["k"] == "vmdk-delta-multi":
         # a child made of several sparse extents over a parent: unallocated grains of a later extent must be
         # fetched from the parent at the *disk* sector, not the extent-relative one
